@@ -216,6 +216,8 @@ void prop(Src& s, Ctx& ctx) {
         struct Written { std::vector<uint8_t> bytes; uint32_t sec, usec; };
         std::vector<Written> written;
         unsigned ctor = (unsigned)s.range(0, 1);
+        unsigned wstyle = (unsigned)s.range(0, 7);   // bits 0-1: which write() overload; bit 2: the writer is moved before use
+        bool ts_known = (wstyle & 3) == 0;
         try {
             std::unique_ptr<PacketWriter> w;
             switch (link.dlt) {
@@ -226,6 +228,12 @@ void prop(Src& s, Ctx& ctx) {
                 case DLT_LINUX_SLL: w.reset(ctor ? new PacketWriter(path, PacketWriter::SLL) : new PacketWriter(path, DataLinkType<SLL>())); break;
                 default: w.reset(new PacketWriter(path, DataLinkType<IP>())); break;
             }
+            if (wstyle & 4) {  // move construction, then move assignment back
+                PacketWriter tmp(std::move(*w));
+                *w = std::move(tmp);
+            }
+            std::vector<std::unique_ptr<PDU> > batch_owner;
+            std::vector<PDU*> batch;
             for (unsigned i = 0; i < nframes; ++i) {
                 std::unique_ptr<PDU> p = gen_packet_for(link, s);
                 std::unique_ptr<PDU> c(p->clone());
@@ -234,10 +242,16 @@ void prop(Src& s, Ctx& ctx) {
                 wr.sec = (uint32_t)s.edgy(31);
                 wr.usec = (uint32_t)s.range(0, 999999);
                 Packet pk(*p, Timestamp(std::chrono::microseconds((uint64_t)wr.sec * 1000000ull + wr.usec)));
-                w->write(pk);
+                switch (wstyle & 3) {
+                    case 0: w->write(pk); break;                          // Packet: its timestamp is written
+                    case 1: w->write(*p); break;                          // PDU&: stamped with the current time
+                    case 2: { PDU* raw = p.get(); if (i & 1) w->write(raw); else w->write(p); break; }   // raw / smart pointer
+                    default: batch_owner.push_back(std::unique_ptr<PDU>(p->clone())); batch.push_back(batch_owner.back().get()); break;   // iterator range, written after the loop
+                }
                 written.push_back(wr);
                 if (ctx.logging()) ctx.log("  wrote " + layer_chain(*p) + " " + hex(wr.bytes, 200));
             }
+            if ((wstyle & 3) == 3) w->write(batch.begin(), batch.end());
         } catch (const std::exception& e) {
             close(fd);
             VFAIL(ctx, tag + ":writer-throws:" + demangled(typeid(e)), "PacketWriter for " << link.name << " threw " << e.what());
@@ -256,7 +270,7 @@ void prop(Src& s, Ctx& ctx) {
         for (size_t i = 0; i < written.size() && i < pf.records.size(); ++i) {
             const PcapRecord& r = pf.records[i];
             VCHECK(ctx, r.bytes == written[i].bytes, tag + ":written-bytes-differ", "record " << i << ": file has " << hex(r.bytes) << " serialize() gave " << hex(written[i].bytes));
-            VCHECK(ctx, r.sec == written[i].sec && r.usec == written[i].usec, tag + ":written-timestamp-differs",
+            VCHECK(ctx, !ts_known || (r.sec == written[i].sec && r.usec == written[i].usec), tag + ":written-timestamp-differs",
                    "record " << i << ": file has " << r.sec << "." << r.usec << " packet had " << written[i].sec << "." << written[i].usec);
         }
         // and through the sniffer: raw mode gives the bytes, normal mode the parsed packets
@@ -266,8 +280,10 @@ void prop(Src& s, Ctx& ctx) {
             std::vector<Seen> got;
             std::vector<std::vector<uint8_t> > got_bytes;
             try {
-                FileSniffer sn(fp);
-                sn.set_extract_raw_pdus(raw != 0);
+                FileSniffer first(fp);
+                first.set_extract_raw_pdus(raw != 0);
+                FileSniffer second(std::move(first));   // a moved sniffer keeps its configuration
+                FileSniffer& sn = second;
                 for (unsigned guard = 0; guard < nframes + 5; ++guard) {
                     Packet pk(sn.next_packet());
                     if (!pk) break;
@@ -281,7 +297,7 @@ void prop(Src& s, Ctx& ctx) {
                 VCHECK(ctx, got.size() == written.size(), tag + ":readback-count", got.size() << " frames read back, " << written.size() << " written");
                 for (size_t i = 0; i < got.size() && i < written.size(); ++i) {
                     VCHECK(ctx, got_bytes[i] == written[i].bytes, tag + ":readback-bytes-differ", "frame " << i << " read back as " << hex(got_bytes[i]) << " written " << hex(written[i].bytes));
-                    VCHECK(ctx, got[i].sec == written[i].sec && got[i].usec == written[i].usec, tag + ":readback-timestamp-differs",
+                    VCHECK(ctx, !ts_known || (got[i].sec == written[i].sec && got[i].usec == written[i].usec), tag + ":readback-timestamp-differs",
                            "frame " << i << ": " << got[i].sec << "." << got[i].usec << " vs " << written[i].sec << "." << written[i].usec);
                 }
             } else {
@@ -290,7 +306,10 @@ void prop(Src& s, Ctx& ctx) {
             }
         }
         ctx.label("writer-roundtrip");
-        ctx.hash(nframes); ctx.hash(ctor);
+        ctx.hash(nframes); ctx.hash(ctor); ctx.hash(wstyle);
+        static const char* WS[] = {"write(Packet)", "write(PDU&)", "write(pointer)", "write(range)"};
+        ctx.label(WS[wstyle & 3]);
+        if (wstyle & 4) ctx.label("writer-moved");
         for (const Written& w : written) ctx.hash(hash_bytes(w.bytes.data(), w.bytes.size()));
         ctx.nontrivial(nframes >= 3);
         ctx.sample(std::string("writer round trip ") + link.name + " frames=" + std::to_string(nframes));
@@ -340,16 +359,30 @@ void prop(Src& s, Ctx& ctx) {
     if (ctx.logging()) { ctx.log(desc); for (const Frame& f : frames) ctx.log("  frame " + hex(f.bytes, 80) + (f.parses ? " -> " + f.chain : " (does not parse)")); }
 
     unsigned k1 = 1 + (unsigned)s.range(0, 3), k2 = 1 + (unsigned)s.range(0, 2);
-    for (unsigned style = 0; style < 4; ++style) {
+    for (unsigned style = 0; style < 7; ++style) {
         std::vector<uint8_t> keep;
-        FILE* fp = mem_file(image, keep);
+        FILE* fp = nullptr;
+        int pfd = -1;
+        std::string ppath;
+        if (style == 5) {  // the constructors that take a file name
+            pfd = memfd_create("c17r", 0);
+            if (pfd < 0) continue;
+            if (!image.empty() && write(pfd, image.data(), image.size()) != (ssize_t)image.size()) { close(pfd); continue; }
+            ppath = "/proc/self/fd/" + std::to_string(pfd);
+        } else {
+            fp = mem_file(image, keep);
+        }
+        struct FdCloser { int fd; ~FdCloser() { if (fd >= 0) close(fd); } } fd_closer{pfd};
         std::vector<Seen> got;
-        static const char* STYLE[] = {"next_packet", "sniff_loop", "range-iteration", "bounded-sniff_loops-then-iteration"};
+        static const char* STYLE[] = {"next_packet", "sniff_loop", "range-iteration", "bounded-sniff_loops-then-iteration", "moved-sniffer-postincrement-iteration",
+                                      "file-name-constructor", "sniff_loop-pdu-callback"};
         bool ctor_failed = false;
+        bool no_timestamps = false;
         try {
             std::unique_ptr<FileSniffer> sn;
             try {
-                sn.reset(mode == 2 ? new FileSniffer(fp, filter) : new FileSniffer(fp));
+                if (style == 5) sn.reset(mode == 2 ? new FileSniffer(ppath, filter) : new FileSniffer(ppath));
+                else sn.reset(mode == 2 ? new FileSniffer(fp, filter) : new FileSniffer(fp));
             } catch (const invalid_pcap_filter&) {
                 ctor_failed = true;
             } catch (const pcap_error&) {
@@ -378,6 +411,28 @@ void prop(Src& s, Ctx& ctx) {
                     got.push_back({(uint32_t)pk.timestamp().seconds(), (uint32_t)pk.timestamp().microseconds(), layer_chain(*pk.pdu())});
                     if (++guard > nframes + 5) break;
                 }
+            } else if (style == 4) {
+                // the sniffer is moved first; iteration with the post-increment and arrow operators
+                FileSniffer moved(std::move(*sn));
+                for (SnifferIterator it = moved.begin(); it != moved.end(); it++) {
+                    got.push_back({(uint32_t)it->timestamp().seconds(), (uint32_t)it->timestamp().microseconds(), layer_chain(*it->pdu())});
+                    if (++guard > nframes + 5) break;
+                }
+            } else if (style == 5) {
+                FileSniffer assigned(std::move(*sn));
+                *sn = std::move(assigned);   // move assignment back
+                for (;;) {
+                    Packet pk(sn->next_packet());
+                    if (!pk) break;
+                    got.push_back({(uint32_t)pk.timestamp().seconds(), (uint32_t)pk.timestamp().microseconds(), layer_chain(*pk.pdu())});
+                    if (++guard > nframes + 5) break;
+                }
+            } else if (style == 6) {
+                no_timestamps = true;   // a callback that takes the PDU does not see the timestamp
+                sn->sniff_loop([&](PDU& pdu) -> bool {
+                    got.push_back({0, 0, layer_chain(pdu)});
+                    return ++guard <= nframes + 5;
+                });
             } else {
                 // two bounded loops (max_packets), then the rest through iteration: no frame may be lost in between
                 auto cb = [&](Packet& pk) -> bool {
@@ -401,7 +456,7 @@ void prop(Src& s, Ctx& ctx) {
         }
         if (ctor_failed) break;
         bool same = got.size() == expect.size();
-        for (size_t i = 0; same && i < got.size(); ++i) same = got[i].sec == expect[i].sec && got[i].usec == expect[i].usec && got[i].chain == expect[i].chain;
+        for (size_t i = 0; same && i < got.size(); ++i) same = (no_timestamps || (got[i].sec == expect[i].sec && got[i].usec == expect[i].usec)) && got[i].chain == expect[i].chain;
         VCHECK(ctx, same, tag + ":" + STYLE[style] + (mode == 2 ? ":filtered-output-differs" : ":output-differs"),
                desc << "\n expected " << render(expect) << "\n got      " << render(got));
     }
@@ -409,9 +464,17 @@ void prop(Src& s, Ctx& ctx) {
     if (mode == 2 && link.dlt != DLT_PKTAP) {  // (there is no DataLinkType<PKTAP>, and PKTAP packets cannot be serialised)
         try {
             std::unique_ptr<OfflinePacketFilter> opf_holder(make_offline_filter(link, filter));
-            OfflinePacketFilter& opf = *opf_holder;
+            OfflinePacketFilter& opf0 = *opf_holder;
             VCHECK(ctx, bpf_dead->ok, tag + ":offline-filter-accepts-invalid-filter", desc);
+            // copies of a filter are as good as the filter (copy construction, copy assignment over another filter)
+            std::unique_ptr<OfflinePacketFilter> opf_copy(new OfflinePacketFilter(opf0));
+            std::unique_ptr<OfflinePacketFilter> opf_assigned(new OfflinePacketFilter("len > 0", DataLinkType<EthernetII>()));
+            *opf_assigned = opf0;
+            *opf_assigned = *opf_assigned;
+            size_t fi = 0;
             for (const Frame& f : frames) {
+                OfflinePacketFilter& opf = fi % 3 == 0 ? opf0 : (fi % 3 == 1 ? *opf_copy : *opf_assigned);
+                ++fi;
                 if (!f.parses) continue;
                 std::unique_ptr<PDU> p = parse_entry(e, f.bytes.data(), f.bytes.size(), 0);
                 if (!p || has_unserializable_layer(*p)) continue;
